@@ -366,9 +366,14 @@ func (g *vgen) fillField(f *field, v reflect.Value) {
 		}
 		s := reflect.MakeSlice(f.typ, n, n+r.Intn(3))
 		for i := 0; i < n; i++ {
-			if f.kind == kSlicePrim {
+			switch {
+			case f.kind == kSlicePrim:
 				s.Index(i).Set(g.prim(f.prim, hint{}))
-			} else {
+			case f.elemPtr:
+				p := reflect.New(f.sub.typ)
+				g.fillStruct(f.sub, p.Elem())
+				s.Index(i).Set(p)
+			default:
 				g.fillStruct(f.sub, s.Index(i))
 			}
 		}
@@ -518,7 +523,7 @@ func (g *vgen) cfgField(f *field, pre reflect.Value, stats *cfgStats) *cval {
 		for i, n := 0, 1+r.Intn(3); i < n; i++ {
 			var e reflect.Value
 			if pre.IsValid() && i < pre.Len() {
-				e = pre.Index(i)
+				e = deref(pre.Index(i))
 			}
 			c.list = append(c.list, g.cfgStruct(f.sub, e, true, &dummy))
 		}
